@@ -91,11 +91,12 @@ func checkC06(r *Run) {
 	// Identify the variables: tag, m, err := recv(...)
 	var recvCall *ast.CallExpr
 	var tagName, msgName, errName string
+	var recvSite *Site
 	for _, s := range m.callsIn(hr, "p9.recv") {
-		recvCall = s.Call
-		if as, ok := r.L.parent(s.Call).(*ast.AssignStmt); ok && len(as.Lhs) == 3 {
-			tagName, msgName, errName = res.str(as.Lhs[0]), res.str(as.Lhs[1]), res.str(as.Lhs[2])
-		}
+		recvCall, recvSite = s.Call, s
+		// the variables of handleRequest that hold recv's results (directly, or through the
+		// results of a private helper that does the receiving)
+		tagName, msgName, errName = m.resultVarIn(hr, s, 0), m.resultVarIn(hr, s, 1), m.resultVarIn(hr, s, 2)
 	}
 	if recvCall == nil || tagName == "" {
 		r.undecided("r1", "handleRequest: recv", hr.Decl.Pos(), "no 'tag, m, err := recv(...)' found")
@@ -122,32 +123,77 @@ func checkC06(r *Run) {
 			r.undecided("r1", fmt.Sprintf("handleRequest exit #%d", nExits), ex.Ret.Pos(), "no send count for this exit")
 			continue
 		}
-		// classify
-		want := 0
-		why := "no reply on this path (connection error, shutdown or duplicate tag)"
-		started := ex.St.holds(startKey, true)
-		connOK := m.resultName(hr, -1, isAssertTo(info, "p9.ConnError"))
-		protoErr := ex.St.holds(errName+" == nil", false) && !(connOK != "" && ex.St.holds(connOK, true)) // err != nil and not a ConnError
-		connErr := false
+		// The paths that reach this exit are judged in groups: those on which StartTag
+		// succeeded (a started request is owed exactly one reply) and the others.  Each path
+		// carries its own count of send calls (SiteDB.CountIn); when the path set was
+		// collapsed the exit is judged as a whole with the range of the counting pass.
+		connOK, connTruth := m.boolTest(hr, isAssertTo(info, "p9.ConnError"))
+		type group struct {
+			paths    []FactSet
+			min, max int
+		}
+		groups := map[bool]*group{}
+		perPath := true
 		for _, p := range ex.St.Paths {
-			for k, v := range p {
-				if connOK != "" && k == connOK && v && ex.St.Must["p9.recv"] && !started {
-					// errSocket, ok := err.(ConnError); ok
-					connErr = true
-				}
+			n, known := pathCount(p, "p9.send")
+			if !known {
+				perPath = false
+				break
+			}
+			st := p[startKey]
+			g := groups[st]
+			if g == nil {
+				g = &group{min: n, max: n}
+				groups[st] = g
+			}
+			g.paths = append(g.paths, p)
+			if n < g.min {
+				g.min = n
+			}
+			if n > g.max {
+				g.max = n
 			}
 		}
-		switch {
-		case started:
-			want, why = 1, "request started: exactly one reply"
-		case protoErr && !connErr && ex.St.Must["p9.recv"] && ex.St.Must["p9.newErr"]:
-			want, why = 1, "protocol error: exactly one Rlerror"
+		if !perPath || len(ex.St.Paths) == 0 {
+			groups = map[bool]*group{ex.St.holds(startKey, true): {paths: ex.St.Paths, min: c.Min, max: c.Max}}
 		}
-		key := fmt.Sprintf("handleRequest exit #%d (%s)", nExits, exitLabel(r, ex))
-		if c.Min == want && c.Max == want {
-			r.ok("r1", key, ex.Ret.Pos(), "%s; sends on every path to this exit: %d", why, want)
-		} else {
-			r.fail("r1", key, ex.Ret.Pos(), "%s, but the paths to this exit perform between %d and %d send calls", why, c.Min, c.Max)
+		for _, started := range []bool{true, false} {
+			g := groups[started]
+			if g == nil {
+				continue
+			}
+			gs := &HState{Paths: g.paths}
+			want := 0
+			why := "no reply on this path (connection error, shutdown or duplicate tag)"
+			protoErr := gs.holds(errName+" == nil", false) && !(connOK != "" && gs.holds(connOK, connTruth)) // err != nil and not a ConnError
+			connErr := false
+			for _, p := range g.paths {
+				for k, v := range p {
+					if connOK != "" && k == connOK && v == connTruth && ex.St.Must["p9.recv"] && !started {
+						// errSocket, ok := err.(ConnError); ok
+						connErr = true
+					}
+				}
+			}
+			switch {
+			case started:
+				want, why = 1, "request started: exactly one reply"
+			case protoErr && !connErr && ex.St.Must["p9.recv"] && ex.St.Must["p9.newErr"]:
+				want, why = 1, "protocol error: exactly one Rlerror"
+			}
+			key := fmt.Sprintf("handleRequest exit #%d (%s)", nExits, exitLabel(r, ex))
+			if len(groups) > 1 {
+				if started {
+					key += ", paths with the request started"
+				} else {
+					key += ", paths without a started request"
+				}
+			}
+			if g.min == want && g.max == want {
+				r.ok("r1", key, ex.Ret.Pos(), "%s; sends on every path to this exit: %d", why, want)
+			} else {
+				r.fail("r1", key, ex.Ret.Pos(), "%s, but the paths to this exit perform between %d and %d send calls", why, g.min, g.max)
+			}
 		}
 	}
 	r.floor("r1", "exits of handleRequest", nExits, 3)
@@ -164,7 +210,13 @@ func checkC06(r *Run) {
 		msgArg := s.argExpr(info, 3)
 		key := fmt.Sprintf("handleRequest: send #%d", nSend)
 		// tag is the recv result, not reassigned (single definition => resolver keeps the name)
-		tagOK := tagArg == tagName && s.St.Defs[objByName(info, hr, tagName)] == ast.Node(recvCall)
+		// (single definition: the recv call itself, or the call of the helper whose result it is)
+		tagObj := m.resultObjIn(hr, recvSite, 0)
+		tagDef := s.St.Defs[tagObj]
+		if len(recvSite.Inl) > 0 && tagDef != nil && tagDef == ast.Node(recvSite.Inl[0].Call) {
+			tagDef = ast.Node(recvCall)
+		}
+		tagOK := tagArg == tagName && tagObj != nil && tagDef == ast.Node(recvCall)
 		r.check(tagOK, "r1", key+" carries the request's tag", s.Call.Pos(), "tag = the value recv returned", "the reply's tag is "+tagArg+", not the tag returned by recv for this request")
 		wArg := s.arg(1)
 		r.check(wArg == csName+".r", "r1", key+" goes to this connection", s.Call.Pos(), "writer = cs.r", "the reply is written to "+wArg)
@@ -251,13 +303,13 @@ func checkC06(r *Run) {
 		r.check(len(bad) == 0, "r4", "handler runs with no connection lock", s.Call.Pos(), "recvMu/sendMu/fidMu/tagMu are not held when cs.handle runs", "cs.handle(m) may run while "+strings.Join(bad, ", ")+" is held: requests of this connection would be serialised behind the handler")
 	}
 	nGo := 0
-	for _, b := range db.Blocking {
-		if b.Root != hr || b.Callee != "go" {
-			continue
-		}
+	for _, b := range m.blockingIn(hr, "go") {
 		nGo++
 		okTok := hasClass(b.St.Locks, "p9.connState.recvMu")
-		okAdd := b.St.Must["sync.WaitGroup.Add"]
+		okAdd := false
+		if g, ok := b.Node.(*ast.GoStmt); ok {
+			okAdd = unconsumedAdd(m, hr)[g] // an Add of its own, not the one that counts this activation
+		}
 		okIdle := false
 		for _, p := range b.St.Paths {
 			for k, v := range p {
@@ -338,13 +390,13 @@ func checkC06(r *Run) {
 
 	// --- r5: tag bookkeeping ---
 	nClear := 0
-	for _, s := range db.Calls["p9.connState.ClearTag"] {
+	for _, s := range m.contextSites("p9.connState.ClearTag") {
 		nClear++
 		if s.Root != hr {
 			r.fail("r5", s.Root.Key+" calls ClearTag", s.Call.Pos(), "ClearTag is called outside handleRequest: a tag could be released while its request is still executing")
 			continue
 		}
-		r.check(res.str(s.Call.Args[0]) == tagName && s.St.holds(startKey, true), "r5", "ClearTag clears the started tag", s.Call.Pos(), "ClearTag(tag) after StartTag(tag) succeeded", "ClearTag is not applied to the tag that StartTag registered")
+		r.check(s.arg(0) == tagName && s.St.holds(startKey, true), "r5", "ClearTag clears the started tag", s.Call.Pos(), "ClearTag(tag) after StartTag(tag) succeeded", "ClearTag is not applied to the tag that StartTag registered")
 		r.check(s.St.Must["p9.connState.handle"] || handledOrBypassed(r, m, hr, s.Call), "r5", "ClearTag after the handler returned", s.Call.Pos(), "cs.handle(m) (or the self-flush bypass) precedes", "the tag is cleared before the handler has run")
 	}
 	r.check(nClear == 1, "r5", "exactly one ClearTag site", hr.Decl.Pos(), "1 site", fmt.Sprintf("%d ClearTag call sites", nClear))
@@ -380,13 +432,23 @@ func objByName(info *types.Info, fi *FuncInfo, name string) types.Object {
 }
 
 // allDefsAre: e is a local variable all of whose assignments satisfy pred.
+// allDefsLoaded is the program allDefsAre looks variables up in (set by the checks that use it).
+var allDefsLoaded *Loaded
+
 func allDefsAre(info *types.Info, fi *FuncInfo, e ast.Expr, pred func(ast.Expr) bool) bool {
 	obj := objOf(info, e)
 	if obj == nil {
 		return false
 	}
 	n, okAll := 0, true
-	ast.Inspect(fi.Decl, func(nd ast.Node) bool {
+	var scope ast.Node = fi.Decl
+	if obj.Pos() < fi.Decl.Pos() || obj.Pos() >= fi.Decl.End() {
+		// the variable lives in a helper (the expression was reached through one)
+		if d := allDefsLoaded.declAt(obj.Pos()); d != nil {
+			scope = d
+		}
+	}
+	ast.Inspect(scope, func(nd ast.Node) bool {
 		switch v := nd.(type) {
 		case *ast.AssignStmt:
 			for i, l := range v.Lhs {
@@ -635,7 +697,7 @@ func checkC14(r *Run) {
 		})
 	}
 	hr := r.L.Func("p9", "connState.handleRequest")
-	for _, s := range db.Calls["p9.connState.ClearTag"] {
+	for _, s := range m.contextSites("p9.connState.ClearTag") {
 		okSite := s.Root == hr && (s.St.Must["p9.connState.handle"])
 		// with the self-flush bypass, handle is skipped on that branch only
 		if s.Root == hr && !okSite {
@@ -743,10 +805,9 @@ func c14SelfWait(r *Run, m *ServerModel, rule string) {
 	res := m.resolver(hr)
 	tagName := ""
 	for _, s := range m.callsIn(hr, "p9.recv") {
-		if as, ok := r.L.parent(s.Call).(*ast.AssignStmt); ok && len(as.Lhs) == 3 {
-			tagName = res.str(as.Lhs[0])
-		}
+		tagName = m.resultVarIn(hr, s, 0)
 	}
+	_ = res
 	// (A) bypass in handleRequest: at cs.handle(m), every path refutes "<x>.OldTag == tag".
 	okA := false
 	var pos token.Pos = tf.Decl.Pos()
@@ -762,7 +823,7 @@ func c14SelfWait(r *Run, m *ServerModel, rule string) {
 				// the type assertion failed: not a Tflush at all
 				if !v && !strings.Contains(k, " ") {
 					// only counts if that ok comes from m.(*tflush): checked through Defs below
-					ref = ref || okFromTflushAssert(m, hr, s.St, k)
+					ref = ref || okFromTflushAssert(m, s, k)
 				}
 			}
 			if !ref {
@@ -788,20 +849,19 @@ func c14SelfWait(r *Run, m *ServerModel, rule string) {
 		"tflush.handle waits on the channel of OldTag without the request's own tag ever being compared with it: a Tflush whose OldTag is its own tag waits on the channel that only its own completion closes — it is never answered and Handle can never return")
 }
 
-func okFromTflushAssert(m *ServerModel, hr *FuncInfo, st *HState, key string) bool {
-	for obj, def := range st.Defs {
-		_ = def
-		name := obj.Name()
-		if u, ok := m.resolver(hr).uniq[obj]; ok {
-			name = u
-		}
-		if name != key {
-			continue
-		}
+func okFromTflushAssert(m *ServerModel, site *Site, key string) bool {
+	// Find the comma-ok assertion to *tflush whose ok variable renders as key - in the function
+	// the site is written in (handleRequest, or a helper judged in its context).
+	decl := m.L.declAt(site.Call.Pos())
+	if decl == nil {
+		return false
 	}
-	// Find the comma-ok assertion whose ok variable renders as key.
+	res := site.Res
+	if res == nil {
+		res = m.resolver(site.Root)
+	}
 	found := false
-	ast.Inspect(hr.Decl, func(n ast.Node) bool {
+	ast.Inspect(decl, func(n ast.Node) bool {
 		as, ok := n.(*ast.AssignStmt)
 		if !ok || len(as.Lhs) != 2 || len(as.Rhs) != 1 {
 			return true
@@ -810,7 +870,7 @@ func okFromTflushAssert(m *ServerModel, hr *FuncInfo, st *HState, key string) bo
 		if !ok || ta.Type == nil {
 			return true
 		}
-		if m.resolver(hr).str(as.Lhs[1]) == key && strings.HasSuffix(m.L.str(ta.Type), "tflush") {
+		if res.str(as.Lhs[1]) == key && strings.HasSuffix(m.L.str(ta.Type), "tflush") {
 			found = true
 		}
 		return true
@@ -826,7 +886,10 @@ func handledOrBypassed(r *Run, m *ServerModel, hr *FuncInfo, call *ast.CallExpr)
 	// must-analysis: on every path to the call, cs.handle has returned, or the path went
 	// through the edge on which the request is a Tflush naming its own tag (the bypass that
 	// answers it directly) - however the if/else is arranged.
-	tagName := m.resultName(hr, 0, isCallTo(info, "p9.recv"))
+	tagName := ""
+	for _, s := range m.callsIn(hr, "p9.recv") {
+		tagName = m.resultVarIn(hr, s, 0)
+	}
 	_, at := mustFlag(m.DB, hr, func(n ast.Node, res *resolver) (bool, bool) {
 		done := false
 		inspectNoLit(n, func(x ast.Node) {
